@@ -91,7 +91,7 @@ static size_t decode_path(const DecApi& A, int path, const uint8_t* f, size_t n,
                 if (A.isError(r)) return r;
                 if (path == P_STABLE_OUT) spos = o.pos; else acc.insert(acc.end(), ob.p, ob.p + o.pos);
                 pos += in.pos;
-                if (r == 0) { if (path == P_STABLE_OUT) acc.assign(stable.p, stable.p + spos); out = acc; return pos == n ? acc.size() : (size_t)(PSEUDO - 2); }
+                if (r == 0) { if (path == P_STABLE_OUT) acc.assign(stable.p, stable.p + spos); if (pos < n && path != P_STABLE_OUT) continue;   /* next frame of a multi-frame input */ out = acc; return pos == n ? acc.size() : (size_t)(PSEUDO - 2); }
                 if (in.pos == 0 && o.pos == o0) { if (++stall > 4) return (size_t)(PSEUDO - 3); } else stall = 0;
                 if (pos >= n && o.pos == o0) return (size_t)(PSEUDO - 4);   // input exhausted, frame not complete
             }
@@ -139,7 +139,7 @@ static size_t decode_path(const DecApi& A, int path, const uint8_t* f, size_t n,
     }
 }
 
-static void all_paths(vf::Ctx& c, const uint8_t* f, size_t n, const std::vector<uint8_t>& dict, const std::vector<uint8_t>& expect, bool magicless, bool must_accept, const char* origin) {
+static void all_paths(vf::Ctx& c, const uint8_t* f, size_t n, const std::vector<uint8_t>& dict, const std::vector<uint8_t>& expect, bool magicless, bool must_accept, const char* origin, unsigned nframes = 1) {
     vf::Tape& t = c.t;
     size_t ichunk = (size_t)t.range(1, 5000), ochunk = (size_t)t.range(1, 140000);
     unsigned accepted = 0, rejected = 0;
@@ -152,6 +152,7 @@ static void all_paths(vf::Ctx& c, const uint8_t* f, size_t n, const std::vector<
         for (int p = 0; p < P_NPATHS; p++) {
             if (vi > 0 && p != P_ONESHOT && p != P_STREAM && !t.chance(45)) continue;
             if (p == P_STREAM_TINY && n > 60000) continue;
+            if (nframes > 1 && (p == P_STABLE_OUT || p == P_CONTINUE)) continue;   // these two paths decode exactly one frame per session
             std::vector<uint8_t> out;
             size_t r = decode_path(A, p, f, n, dict, expect.size(), out, ichunk, ochunk, magicless);
             if (r == NA) continue;   // path not applicable
@@ -256,6 +257,6 @@ void vf_fuzz_case(vf::Ctx& c) {
     spec.resize(rr.produced);
     std::vector<uint8_t> nodict;
     vf::Tape t2 = c.t;   // path choices from the same bytes (deterministic)
-    all_paths(c, bytes.data(), bytes.size(), nodict, spec, false, false, "fuzz");
+    all_paths(c, bytes.data(), bytes.size(), nodict, spec, false, false, "fuzz", rr.nframes);
     c.nontrivial = true;
 }
